@@ -538,6 +538,23 @@ theorem containers_irrelevant {β : Type} (n : Nat) (convs : List Conv) (f : Lis
   unfold run
   rw [placeAll_congr n convs args args' hpay h h']
 
+/-- (review) The statement above has no hypothesis tying the NUMBER of conversions to the number of arguments:
+    `Cont.placeAll` walks the two lists like `zip` and silently ignores what is left over, so for a shorter `convs` it
+    says "the surplus arguments are irrelevant" for the wrong reason (they are never placed).  The intended reading,
+    one conversion per argument: -/
+theorem containers_irrelevant_guarded {β : Type} (n : Nat) (convs : List Conv) (f : List (List (Option Rat)) → β)
+    (args args' : List Arg) (_hl : convs.length = args.length)
+    (hpay : List.Forall₂ (fun a a' => a.payload = a'.payload) args args')
+    (h : ∀ p ∈ convs.zip args, dropsLabels p.1 p.2 = true)
+    (h' : ∀ p ∈ convs.zip args', dropsLabels p.1 p.2 = true) :
+    run n convs f args = run n convs f args' ∧ convs.length = args'.length :=
+  ⟨containers_irrelevant n convs f args args' hpay h h', by rw [_hl]; exact hpay.length_eq⟩
+
+/-- the truncation artefact itself: a surplus raw Series with shuffled labels, or a surplus conversion, is dropped -/
+theorem placeAll_truncates :
+    placeAll 2 [] [⟨.series, [1, 0], [10, 20]⟩] = .ok [] ∧ placeAll 2 [.raw, .raw] [⟨.list, [], [10, 20]⟩] = .ok [[some 10, some 20]] := by
+  decide +kernel
+
 /-- … and the rows are paired BY POSITION: row `i` of the frame holds entry `i` of every payload. -/
 theorem positional_pairing {β : Type} (n : Nat) (convs : List Conv) (f : List (List (Option Rat)) → β)
     (args : List Arg) (hl : convs.length = args.length)
@@ -556,6 +573,29 @@ theorem conv_drops_labels (c : Conv) (a : Arg) (hc : c ≠ .raw) (hk : c = .kind
 /-- TIE: every site lifted from the source passes its argument through a label-dropping conversion (finite table
     regenerated from the source on every run; a `raw` site makes this fail). -/
 theorem lifted_sites_drop_labels : ∀ s ∈ ContainerSites.sites, s.conv ≠ Conv.raw := by decide
+
+/-- (review) the table the `decide` ranges over is not empty … -/
+theorem lifted_sites_nonempty : 0 < ContainerSites.sites.length := by decide
+
+/-- … and a single `raw` row makes the statement of `lifted_sites_drop_labels` FALSE (so its `decide` fails): this is
+    what the lifter emits for an argument that reaches its sink unconverted (seeded changes C01a / C04a / C12a) -/
+theorem raw_site_is_flagged (e a k : String) :
+    ¬ (∀ s ∈ (⟨e, a, k, Conv.raw⟩ : ContainerSites.Site) :: ContainerSites.sites, s.conv ≠ Conv.raw) :=
+  fun h => h _ (List.mem_cons_self ..) rfl
+
+/-- (review) TABLE and MODEL composed — `lifted_sites_drop_labels` and `containers_irrelevant` were not connected:
+    take ANY list `ss` of rows of the lifted table as the conversions of the arguments of an entry point; then
+    container kinds and index labels of the arguments are irrelevant.  The only side condition is the `isinstance`
+    guard of the rows of class `kind` (they are reached by lists / ndarrays only). -/
+theorem lifted_entry_irrelevant {β : Type} (n : Nat) (ss : List ContainerSites.Site)
+    (hss : ∀ s ∈ ss, s ∈ ContainerSites.sites) (f : List (List (Option Rat)) → β) (args args' : List Arg)
+    (hpay : List.Forall₂ (fun a a' => a.payload = a'.payload) args args')
+    (hk : ∀ p ∈ ss.zip args, p.1.conv = Conv.kind → p.2.kind.labelled = false)
+    (hk' : ∀ p ∈ ss.zip args', p.1.conv = Conv.kind → p.2.kind.labelled = false) :
+    run n (ss.map (·.conv)) f args = run n (ss.map (·.conv)) f args' :=
+  containers_irrelevant n _ f args args' hpay
+    (dropsLabels_sites ss args (fun s hs => lifted_sites_drop_labels s (hss s hs)) hk)
+    (dropsLabels_sites ss args' (fun s hs => lifted_sites_drop_labels s (hss s hs)) hk')
 
 /-- the table is not empty and covers the anchored entry points -/
 theorem lifted_sites_cover :
@@ -585,12 +625,59 @@ theorem raw_series_is_label_sensitive :
     placeAll 2 [.raw] [⟨.series, [0, 0], [10, 20]⟩] = .error .dupLabels ∧
     placeAll 2 [.raw] [⟨.list, [1, 0], [10, 20]⟩] = .ok [[some 10, some 20]] := by decide +kernel
 
+/-- (review) repeated labels on a raw Series / DataFrame ALWAYS raise (pandas: `ValueError: cannot reindex on an axis
+    with duplicate labels`), whatever the values and the frame length -/
+theorem raw_place_dup_raises (n : Nat) (k : Kind) (hk : k.labelled = true) (labels : List Int) (vals : List Rat)
+    (h : ¬ labels.Nodup) : placeAll n [.raw] [⟨k, labels, vals⟩] = .error .dupLabels := by
+  simp [placeAll, convert, hk, place_dup n labels vals h]
+
+/-- (review) a raw WELL-FORMED Series (as many labels as values, no repeats): row `i` of the frame is NaN exactly when
+    no entry is labelled `i`, and the entry labelled `labels[p]` is the value at position `p` — pairing by label. -/
+theorem raw_place_wf (n : Nat) (labels : List Int) (vals : List Rat) (hnd : labels.Nodup)
+    (hl : labels.length = vals.length) :
+    place n (convert .raw ⟨.series, labels, vals⟩) =
+      .ok ((List.range n).map (fun (i : Nat) => vals[labels.idxOf (i : Int)]?)) ∧
+    (∀ i : Int, vals[labels.idxOf i]? = none ↔ i ∉ labels) ∧
+    (∀ p (hp : p < labels.length), vals[labels.idxOf labels[p]]? = vals[p]?) :=
+  ⟨place_labelled_ok n labels vals hnd, labelled_entry_none_iff labels vals hl, labelled_entry_some labels vals hnd⟩
+
+/-- TOTALISATION of `Cont.place` outside well-formed Series: with FEWER labels than values a missing label reads the
+    value just behind the labels instead of NaN (`idxOf` of an absent label is the length of the label list).  No pandas
+    object has that shape; the harness always sends as many labels as values for Series / DataFrame arguments and none
+    otherwise; `raw_place_wf` is the guarded statement. -/
+theorem place_length_artefact : place 1 (.labelled [5] [10, 20]) = .ok [some 20] := by decide +kernel
+
 /-! non-vacuity: three arguments with different kinds and labels, all through label-dropping conversions -/
 example : placeAll 3 [.asarray, .listOf, .values]
     [⟨.series, [2, 0, 1], [1, 0, 1]⟩, ⟨.frame, [7, 7, 7], [5, 6, 7]⟩, ⟨.ndarray, [], [1/2, 1/4, 1/8]⟩] =
     .ok [[some 1, some 0, some 1], [some 5, some 6, some 7], [some (1/2), some (1/4), some (1/8)]] := by
   decide +kernel
 example : dropsLabels .kind ⟨.list, [], [1]⟩ = true ∧ dropsLabels .kind ⟨.series, [3], [1]⟩ = false := by decide
+
+/-- (review) all hypotheses of `containers_irrelevant(_guarded)` at once: same payloads, different kinds and labels
+    (shuffled / duplicated / offset / none), one conversion per argument — and the frame they produce -/
+example : run 3 [.asarray, .listOf, .fresh] id
+      [⟨.series, [2, 0, 1], [1, 0, 1]⟩, ⟨.frame, [7, 7, 7], [5, 6, 7]⟩, ⟨.series, [1, 2, 3], [1/2, 1/4, 1/8]⟩] =
+    run 3 [.asarray, .listOf, .fresh] id
+      [⟨.list, [], [1, 0, 1]⟩, ⟨.ndarray, [], [5, 6, 7]⟩, ⟨.frame, [0, 0, 0], [1/2, 1/4, 1/8]⟩] :=
+  (containers_irrelevant_guarded 3 _ id _ _ rfl
+    (.cons rfl (.cons rfl (.cons rfl .nil))) (by decide) (by decide)).1
+example : run 3 [.asarray, .listOf, .fresh] id
+      [⟨.series, [2, 0, 1], [1, 0, 1]⟩, ⟨.frame, [7, 7, 7], [5, 6, 7]⟩, ⟨.series, [1, 2, 3], [1/2, 1/4, 1/8]⟩] =
+    .ok [[some 1, some 0, some 1], [some 5, some 6, some 7], [some (1/2), some (1/4), some (1/8)]] := by decide +kernel
+
+/-- `lifted_entry_irrelevant` on rows of the CURRENT table: the rows of `_validate_and_reformat_input`, fed with a
+    shuffled Series, a DataFrame with repeated labels and an offset Series vs. plain lists of the same payloads -/
+def exValSites : List ContainerSites.Site :=
+  ContainerSites.sites.filter (fun s => s.entry == "_validate_and_reformat_input")
+
+example : 3 ≤ exValSites.length := by decide +kernel
+example : run 3 (exValSites.map (·.conv)) id
+      [⟨.series, [2, 0, 1], [1, 0, 1]⟩, ⟨.frame, [7, 7, 7], [5, 6, 7]⟩, ⟨.series, [1, 2, 3], [1/2, 1/4, 1/8]⟩] =
+    run 3 (exValSites.map (·.conv)) id
+      [⟨.list, [], [1, 0, 1]⟩, ⟨.list, [], [5, 6, 7]⟩, ⟨.list, [], [1/2, 1/4, 1/8]⟩] :=
+  lifted_entry_irrelevant 3 exValSites (fun _ hs => (List.mem_filter.mp hs).1) id _ _
+    (.cons rfl (.cons rfl (.cons rfl .nil))) (by decide +kernel) (by decide +kernel)
 
 end containers
 
